@@ -266,6 +266,10 @@ type enumCase struct {
 	// HalfFreed: the lowest free inode number belongs to a removed big file whose blocks the shrinker had not
 	// finished freeing when the server was stopped: the next allocation finds it and has to finish the job first
 	HalfFreed bool
+	// HalfCut: the shared file f0 held 600 blocks, was cut to 0 and the server stopped before the shrinker had freed
+	// them: f0 is live, empty and still owns blocks; the first WRITE/SETATTR that meets it finishes the job, in
+	// transactions of its own, with the file unlocked in between
+	HalfCut bool
 	// HFile: the operations with kinds ending in h go through the handle of the file D0/a, which holds two blocks of data
 	HFile bool
 	// Sweep: 130 further files exist, and a third client looks at all of them while client 0 is held (the cached
@@ -461,6 +465,19 @@ func enumSpace() []enumCase {
 			}
 		}
 	}
+	// a request that finishes an interrupted cut of f0 (and holds no lock while it does) against a client that
+	// refills the file, grows it and cuts it again
+	for _, op0 := range []cOp{w(0, BlockSize+100, 10, 21), w(0, 100, 10, 22), {Kind: "setattr", File: 0, Size: BlockSize + 5}, {Kind: "setattr", File: 0, Size: 2 * BlockSize}} {
+		for _, prog := range [][]cOp{
+			{w(0, 0, 2*BlockSize, 23), {Kind: "setattr", File: 0, Size: 600 * BlockSize}, {Kind: "setattr", File: 0, Size: 0}},
+			{w(0, 0, 2*BlockSize, 24), {Kind: "setattr", File: 0, Size: 600 * BlockSize}, {Kind: "setattr", File: 0, Size: 100}},
+			{w(0, BlockSize, BlockSize, 25), {Kind: "setattr", File: 0, Size: 0}},
+		} {
+			for hook := 0; hook < 10; hook++ {
+				cases = append(cases, enumCase{Data: true, HalfCut: true, Op0: op0, Prog1: prog, Hook: hook})
+			}
+		}
+	}
 	return cases
 }
 
@@ -484,6 +501,10 @@ func makeHalfFreed(w *cWorld) bool {
 
 func TestC03Enum(t *testing.T) { enumLin(t, "C03", nil) }
 
+// Two clients move two directories into each other (or into directories inside each other), client 0 held at each of
+// its first fourteen lock/commit/abort points: in every sequential order exactly one of the two requests succeeds.
+func TestC03RenameCycle(t *testing.T) { renameCycle(t, "C03") }
+
 // enumLin runs the enumerated cases (all, or those filter selects) under the linearizability oracle and reports
 // violations under prop.
 func enumLin(t *testing.T, prop string, filter func(enumCase) bool) {
@@ -496,10 +517,10 @@ func enumLin(t *testing.T, prop string, filter func(enumCase) bool) {
 		if i%nshards != shard || (filter != nil && !filter(ec)) {
 			continue
 		}
-		if !Thorough() && Hash(seed, i)%4 != 0 && !ec.HalfFreed && !ec.Sweep && prop != "C14" {
+		if !Thorough() && Hash(seed, i)%4 != 0 && !ec.HalfFreed && !ec.HalfCut && !ec.Sweep && prop != "C14" {
 			continue
 		}
-		if only := os.Getenv("VERIF_ENUM_ONLY"); (only == "sweep" && !ec.Sweep) || (only == "plus" && ec.Op0.Kind != "readdirplus" && ec.Op0.Kind != "setattrhm") || (only == "cold" && (!ec.Cold || ec.HFile)) {
+		if only := os.Getenv("VERIF_ENUM_ONLY"); (only == "sweep" && !ec.Sweep) || (only == "plus" && ec.Op0.Kind != "readdirplus" && ec.Op0.Kind != "setattrhm") || (only == "cold" && (!ec.Cold || ec.HFile)) || (only == "halfcut" && !ec.HalfCut) {
 			continue // (debugging aid: one family of cases)
 		}
 		size := uint64(9000)
@@ -531,6 +552,19 @@ func enumLin(t *testing.T, prop string, filter func(enumCase) bool) {
 			res := w.exec(api, o)
 			ops = append(ops, porcupine.Operation{ClientId: 9, Input: o, Call: clock + 1, Output: res, Return: clock + 2})
 			clock += 2
+		}
+		if ec.HalfCut {
+			for _, o := range []cOp{{Kind: "write", File: 0, Off: 0, Data: string(patternData(0xbb1, 300*BlockSize)), Stable: 2},
+				{Kind: "write", File: 0, Off: 300 * BlockSize, Data: string(patternData(0xbb2, 300*BlockSize)), Stable: 2}, {Kind: "setattr", File: 0, Size: 0}} {
+				ops = append(ops, porcupine.Operation{ClientId: 9, Input: o, Call: clock + 1, Output: w.exec(api, o), Return: clock + 2})
+				clock += 2
+			}
+			w.S.StopCrash()
+			w.S.start()
+			api = w.S.API()
+			if Fsck(w.S.N.VerifFsState(), FsckOpts{}).HalfFreed > 0 {
+				St.Class("enumerated_cases_starting_with_a_live_file_whose_cut_was_interrupted")
+			}
 		}
 		hfile := ""
 		if ec.HFile {
